@@ -244,7 +244,11 @@ var concKinds = map[string]concKind{
 	"derive": {[]string{"tglib.RanUeContext.DeriveRESstarAndSetKey", "tglib.GetAuthSubscription", "tglib.NewRanUeContext"},
 		func(st *concState) []byte {
 			ue := tglib.NewRanUeContext(fmt.Sprintf("imsi-20893%010d", st.g*1000+st.rng.Intn(1000)), st.ran, uint8(st.rng.Intn(3)), uint8(1+st.rng.Intn(2)))
-			subs := tglib.GetAuthSubscription(hex.EncodeToString(st.bytes(16)), hex.EncodeToString(st.bytes(16)), "")
+			k, o := hex.EncodeToString(st.bytes(16)), hex.EncodeToString(st.bytes(16))
+			subs := tglib.GetAuthSubscription(k, o, "")
+			if st.rng.Intn(2) == 0 {
+				subs = tglib.GetAuthSubscription(k, "", o) // the operator code configured as OP: OPc is derived per call
+			}
 			var autn [16]byte
 			copy(autn[:], st.bytes(16))
 			res := ue.DeriveRESstarAndSetKey(subs, autn, st.bytes(16), "5G:mnc093.mcc208.3gppnetwork.org", "93", "208")
